@@ -76,41 +76,226 @@ func c11ParamName(fd *ast.FuncDecl, i int) string {
 	return ""
 }
 
-func c11QueryLoop(fd *ast.FuncDecl) (waitCond, freshTimeout, breaksOnTimeout bool) {
+// c11Conj flattens a chain of `&&`
+func c11Conj(e ast.Expr) []ast.Expr {
+	if pe, ok := e.(*ast.ParenExpr); ok {
+		return c11Conj(pe.X)
+	}
+	if be, ok := e.(*ast.BinaryExpr); ok && be.Op == token.LAND {
+		return append(c11Conj(be.X), c11Conj(be.Y)...)
+	}
+	return []ast.Expr{e}
+}
+
+func c11IsIdent(e ast.Expr, name string) bool {
+	id, ok := e.(*ast.Ident)
+	return ok && name != "" && id.Name == name
+}
+
+func c11IsSel(e ast.Expr, sel string) bool {
+	se, ok := e.(*ast.SelectorExpr)
+	return ok && se.Sel.Name == sel
+}
+
+func c11IsZero(e ast.Expr) bool {
+	bl, ok := e.(*ast.BasicLit)
+	return ok && bl.Value == "0"
+}
+
+// c11LoopFacts: what the extractor reads from one Query function — by structure, not by the names of its locals.
+//
+//	countdown variable  the identifier the read loop decrements (`limit--`) and tests (`limit > 0`)
+//	clamp               before the loop: `if <countdown> > …QueryMaxLimit { <countdown> = …QueryMaxLimit }`
+//	wait condition      inside the loop, an `if` over exactly three conjuncts, in any order: `… == io.EOF`,
+//	                    `<countdown> == <other>` and `<…>.WaitTimeout > 0`
+//	other               "clamped": a local assigned exactly once, from the countdown variable, after the clamp and before
+//	                    the loop (the code's `lim := limit`); "request": the request's `.Limit` field, or a local copied from
+//	                    it, or from the countdown variable BEFORE the clamp; anything else: the wait condition is not recognised
+type c11LoopFacts struct {
+	waitCond, freshTimeout, breaksOnTimeout bool
+	clamps, condUsesClamped                 bool
+	countdown, copyVar                      string
+	copies                                  map[string]bool // every clamped copy of the countdown variable
+}
+
+func (f c11LoopFacts) isClampedCopy(e ast.Expr) bool {
+	id, ok := e.(*ast.Ident)
+	return ok && f.copies[id.Name]
+}
+
+func c11QueryLoop(fd *ast.FuncDecl, who string) (f c11LoopFacts) {
 	if fd == nil {
 		return
 	}
+	// the read loop: the first `for` whose body decrements an identifier its condition compares with 0
+	var loop *ast.ForStmt
 	ast.Inspect(fd.Body, func(n ast.Node) bool {
 		fs, ok := n.(*ast.ForStmt)
-		if !ok {
-			return true
+		if !ok || loop != nil || fs.Cond == nil {
+			return loop == nil
 		}
+		dec := map[string]bool{}
 		ast.Inspect(fs.Body, func(m ast.Node) bool {
-			is, ok := m.(*ast.IfStmt)
-			if !ok {
-				return true
-			}
-			s := c11Idents(is.Cond)
-			if strings.Contains(s, "EOF") && strings.Contains(s, "limit") && strings.Contains(s, "lim ") && strings.Contains(s, "WaitTimeout") &&
-				strings.Count(s, "&&") == 2 && strings.Contains(s, "> ") {
-				waitCond = true
-				ast.Inspect(is.Body, func(k ast.Node) bool {
-					switch x := k.(type) {
-					case *ast.CallExpr:
-						if se, ok := x.Fun.(*ast.SelectorExpr); ok && se.Sel.Name == "WithTimeout" {
-							freshTimeout = true
-						}
-					case *ast.BranchStmt:
-						if x.Tok == token.BREAK {
-							breaksOnTimeout = true
-						}
-					}
-					return true
-				})
+			if ids, ok := m.(*ast.IncDecStmt); ok && ids.Tok == token.DEC {
+				if id, ok := ids.X.(*ast.Ident); ok {
+					dec[id.Name] = true
+				}
 			}
 			return true
 		})
-		return false
+		for _, c := range c11Conj(fs.Cond) {
+			if be, ok := c.(*ast.BinaryExpr); ok && be.Op == token.GTR && c11IsZero(be.Y) {
+				if id, ok := be.X.(*ast.Ident); ok && dec[id.Name] {
+					loop, f.countdown = fs, id.Name
+				}
+			}
+		}
+		return loop == nil
+	})
+	if loop == nil {
+		problem("%s: the read loop (for <limit> > 0 && … { …; <limit>-- … }) was not found", who)
+		return
+	}
+	// the clamp before the loop
+	var clampEnd token.Pos
+	ast.Inspect(fd.Body, func(n ast.Node) bool {
+		is, ok := n.(*ast.IfStmt)
+		if !ok || is.Pos() > loop.Pos() {
+			return true
+		}
+		be, ok := is.Cond.(*ast.BinaryExpr)
+		if !ok || be.Op != token.GTR || !c11IsIdent(be.X, f.countdown) || !strings.Contains(c11Idents(be.Y), "QueryMaxLimit") {
+			return true
+		}
+		for _, st := range is.Body.List {
+			if as, ok := st.(*ast.AssignStmt); ok && len(as.Lhs) == 1 && len(as.Rhs) == 1 && as.Tok == token.ASSIGN &&
+				c11IsIdent(as.Lhs[0], f.countdown) && strings.Contains(c11Idents(as.Rhs[0]), "QueryMaxLimit") {
+				f.clamps, clampEnd = true, is.End()
+			}
+		}
+		return true
+	})
+	// every assignment to a local: name -> (count, the single rhs, position)
+	type asg struct {
+		n   int
+		rhs ast.Expr
+		pos token.Pos
+	}
+	assigns := map[string]*asg{}
+	note := func(lhs ast.Expr, rhs ast.Expr, pos token.Pos) {
+		if id, ok := lhs.(*ast.Ident); ok && id.Name != "_" {
+			a := assigns[id.Name]
+			if a == nil {
+				a = &asg{}
+				assigns[id.Name] = a
+			}
+			a.n++
+			a.rhs, a.pos = rhs, pos
+		}
+	}
+	ast.Inspect(fd.Body, func(n ast.Node) bool {
+		switch x := n.(type) {
+		case *ast.AssignStmt:
+			for i, l := range x.Lhs {
+				var r ast.Expr
+				if len(x.Rhs) == len(x.Lhs) {
+					r = x.Rhs[i]
+				}
+				note(l, r, x.Pos())
+			}
+		case *ast.IncDecStmt:
+			note(x.X, nil, x.Pos())
+		case *ast.ValueSpec:
+			for i, nm := range x.Names {
+				var r ast.Expr
+				if i < len(x.Values) {
+					r = x.Values[i]
+				}
+				note(nm, r, x.Pos())
+			}
+		}
+		return true
+	})
+	// the clamped copy (the code's `lim := limit`): a local assigned exactly once, from the countdown variable, after the clamp and before the loop
+	for name, a := range assigns {
+		if a.n == 1 && a.rhs != nil && a.pos < loop.Pos() && c11IsIdent(a.rhs, f.countdown) && f.clamps && a.pos > clampEnd {
+			if f.copyVar == "" || name < f.copyVar {
+				f.copyVar = name
+			}
+			if f.copies == nil {
+				f.copies = map[string]bool{}
+			}
+			f.copies[name] = true
+		}
+	}
+	// classify the operand the countdown variable is compared with
+	classify := func(other ast.Expr) string {
+		if c11IsSel(other, "Limit") {
+			return "request"
+		}
+		id, ok := other.(*ast.Ident)
+		if !ok {
+			return ""
+		}
+		a := assigns[id.Name]
+		if a == nil || a.n != 1 || a.rhs == nil || a.pos > loop.Pos() {
+			return ""
+		}
+		switch {
+		case c11IsIdent(a.rhs, f.countdown) && f.clamps && a.pos > clampEnd:
+			return "clamped"
+		case c11IsIdent(a.rhs, f.countdown) && (!f.clamps || a.pos < clampEnd):
+			return "request"
+		case c11IsSel(a.rhs, "Limit"):
+			return "request"
+		}
+		return ""
+	}
+	ast.Inspect(loop.Body, func(m ast.Node) bool {
+		is, ok := m.(*ast.IfStmt)
+		if !ok {
+			return true
+		}
+		cj := c11Conj(is.Cond)
+		if len(cj) != 3 {
+			return true
+		}
+		eof, wt, cmp := false, false, ""
+		for _, c := range cj {
+			be, ok := c.(*ast.BinaryExpr)
+			if !ok {
+				return true
+			}
+			switch {
+			case be.Op == token.EQL && (c11IsSel(be.X, "EOF") || c11IsSel(be.Y, "EOF")):
+				eof = true
+			case be.Op == token.GTR && c11IsSel(be.X, "WaitTimeout") && c11IsZero(be.Y):
+				wt = true
+			case be.Op == token.EQL && c11IsIdent(be.X, f.countdown):
+				cmp = classify(be.Y)
+			case be.Op == token.EQL && c11IsIdent(be.Y, f.countdown):
+				cmp = classify(be.X)
+			}
+		}
+		if !(eof && wt && cmp != "") {
+			return true
+		}
+		f.waitCond = true
+		f.condUsesClamped = cmp == "clamped"
+		ast.Inspect(is.Body, func(k ast.Node) bool {
+			switch x := k.(type) {
+			case *ast.CallExpr:
+				if se, ok := x.Fun.(*ast.SelectorExpr); ok && se.Sel.Name == "WithTimeout" {
+					f.freshTimeout = true
+				}
+			case *ast.BranchStmt:
+				if x.Tok == token.BREAK {
+					f.breaksOnTimeout = true
+				}
+			}
+			return true
+		})
+		return true
 	})
 	return
 }
@@ -237,36 +422,76 @@ func init() {
 		if rfd == nil {
 			problem("rpc.ServerQuerier.query not found")
 		}
-		b1, b2, b3 := c11QueryLoop(bfd)
-		r1, r2, r3 := c11QueryLoop(rfd)
-		l.p("/-- per loop: (waits exactly when `err == io.EOF && limit == lim && WaitTimeout > 0`, fresh `context.WithTimeout` per wait, `break` on a wait error) -/")
+		bl, rl := c11QueryLoop(bfd, "backend.Querier.Query"), c11QueryLoop(rfd, "rpc.ServerQuerier.query")
+		b1, b2, b3 := bl.waitCond, bl.freshTimeout, bl.breaksOnTimeout
+		r1, r2, r3 := rl.waitCond, rl.freshTimeout, rl.breaksOnTimeout
+		l.p("/-- per loop: (waits exactly when `err == io.EOF && <countdown> == <other> && WaitTimeout > 0` — three conjuncts, any order, any local names —, fresh `context.WithTimeout` per wait, `break` on a wait error) -/")
 		l.p("def backendLoopShape : Bool × Bool × Bool := (%s, %s, %s)", leanBool(b1), leanBool(b2), leanBool(b3))
 		l.p("def rpcLoopShape : Bool × Bool × Bool := (%s, %s, %s)", leanBool(r1), leanBool(r2), leanBool(r3))
-		// rpc only: `if lim == 0 && rq.WaitTimeout <= 0 { … SendResponse(empty); return }` before the cursor is created
+		l.p("/-- per function: (the countdown variable is clamped to `QueryMaxLimit` before the loop, the `<other>` of the wait condition is a local assigned once from the countdown variable AFTER that clamp — not the request's `Limit`, not a copy taken before the clamp) -/")
+		l.p("def backendLimitShape : Bool × Bool := (%s, %s)", leanBool(bl.clamps), leanBool(bl.condUsesClamped))
+		l.p("def rpcLimitShape : Bool × Bool := (%s, %s)", leanBool(rl.clamps), leanBool(rl.condUsesClamped))
+		// rpc only: `if <countdown or its clamped copy> == 0 && rq.WaitTimeout <= 0 { … SendResponse(empty); return }` before the cursor is created
 		early := false
 		if rfd != nil {
 			ast.Inspect(rfd.Body, func(n ast.Node) bool {
-				if is, ok := n.(*ast.IfStmt); ok {
-					sc := c11Idents(is.Cond)
-					if strings.Contains(sc, "lim ") && strings.Contains(sc, "WaitTimeout") && strings.Contains(sc, "<= ") && strings.Contains(sc, "== ") && strings.Count(sc, "&&") == 1 {
-						for _, st := range is.Body.List {
-							if _, ok := st.(*ast.ReturnStmt); ok {
-								early = true
-							}
+				is, ok := n.(*ast.IfStmt)
+				if !ok {
+					return true
+				}
+				cj := c11Conj(is.Cond)
+				if len(cj) != 2 {
+					return true
+				}
+				z, w := false, false
+				for _, c := range cj {
+					if be, ok := c.(*ast.BinaryExpr); ok {
+						if be.Op == token.EQL && c11IsZero(be.Y) && (c11IsIdent(be.X, rl.countdown) || rl.isClampedCopy(be.X)) {
+							z = true
+						}
+						if be.Op == token.LEQ && c11IsSel(be.X, "WaitTimeout") && c11IsZero(be.Y) {
+							w = true
+						}
+					}
+				}
+				if z && w {
+					for _, st := range is.Body.List {
+						if _, ok := st.(*ast.ReturnStmt); ok {
+							early = true
 						}
 					}
 				}
 				return true
 			})
 		}
-		l.p("/-- `rpc.ServerQuerier.query` answers empty before creating a cursor when `lim == 0 && WaitTimeout <= 0` -/")
+		l.p("/-- `rpc.ServerQuerier.query` answers empty before creating a cursor when `<clamped limit> == 0 && WaitTimeout <= 0` -/")
 		l.p("def rpcEarlyEmptyForZeroLimit : Bool := %s", leanBool(early))
-		l.p("/-- both loops wait exactly when `err == io.EOF && limit == lim && WaitTimeout > 0` -/")
+		l.p("/-- both loops wait exactly when `err == io.EOF && <countdown> == <other> && WaitTimeout > 0` -/")
 		l.p("def queryLoopWaitCondition : Bool := %s", leanBool(b1 && r1))
 		l.p("/-- … with a fresh `context.WithTimeout` per wait -/")
 		l.p("def queryLoopFreshTimeout : Bool := %s", leanBool(b2 && r2))
 		l.p("/-- … and leave the loop when the wait reports an error (timeout) -/")
 		l.p("def queryLoopBreaksOnTimeout : Bool := %s", leanBool(b3 && r3))
+		l.p("/-- … and in both the `<other>` of the wait condition is the CLAMPED limit (so that a request with `Limit > QueryMaxLimit` still waits) -/")
+		l.p("def queryLoopComparesClampedLimit : Bool := %s", leanBool(bl.clamps && bl.condUsesClamped && rl.clamps && rl.condUsesClamped))
+
+		maxLimit := -1
+		if bf != nil {
+			ast.Inspect(bf, func(n ast.Node) bool {
+				if vs, ok := n.(*ast.ValueSpec); ok && len(vs.Names) == 1 && vs.Names[0].Name == "QueryMaxLimit" && len(vs.Values) == 1 {
+					if bl, ok := vs.Values[0].(*ast.BasicLit); ok {
+						maxLimit, _ = strconv.Atoi(bl.Value)
+					}
+				}
+				return true
+			})
+		}
+		if maxLimit < 0 {
+			problem("backend.QueryMaxLimit not found")
+			maxLimit = 0
+		}
+		l.p("/-- `backend.QueryMaxLimit` (events per page) -/")
+		l.p("def queryMaxLimit : Nat := %d", maxLimit)
 
 		maxWait := -1
 		if bf != nil {
